@@ -82,6 +82,11 @@ def run(ctx):
            and any(U(s).endswith(".pre_indexed = True") for s in n2.body)]
     ctx.check(bool(pre), "R9", "'!' sets pre_indexed", m.where(), "pre-index flag is not set from the '!' token", m.qname, "pre index")
     post = pm.find("M_d.post_indexed = {'value': int(memory_address['post_indexed']['value'], 0)}", m.node)
+    if not post:
+        # the same store as one arm of a conditional expression
+        post = [(n2, None) for n2 in ast.walk(m.node) if isinstance(n2, ast.Assign) and U(n2.targets[0]).endswith(".post_indexed")
+                and isinstance(n2.value, ast.IfExp) and "{'value': int(memory_address['post_indexed']['value'], 0)}" in (
+                    U(n2.value.body), U(n2.value.orelse))]
     ctx.check(bool(post), "R9", "post-index immediate is stored as converted value", m.where(), "post-index value is not stored as int(value, 0)",
               m.qname, "post index")
     # ---- R10 ranges / lists
